@@ -79,6 +79,7 @@ def plan(tier, seed):
     # (d) grand canonical ideal gas
     for lam, mol, tri, mixed in [(0.5, False, False, False), (3.0, False, True, True), (8.0, False, False, False), (3.0, True, False, False), (0.5, True, True, True)] + ([(8.0, True, False, True), (3.0, False, False, False)] if big else []):
         W.append({"kind": "grand", "name": f"grand-lam{lam}-{'N2' if mol else 'Ar'}-{'tri' if tri else 'cubic'}-{'mixed' if mixed else 'exch'}", "lam": lam, "mol": mol, "tri": tri, "mixed": mixed, "L": L["g"]})
+    W.append({"kind": "grand", "name": "grand-lam3.0-Ar-state-point-reassigned-900K", "lam": 3.0, "mol": False, "tri": False, "mixed": False, "retune": 900.0, "L": L["g"]})
     for lam, mol, fw in [(3.0, False, 6)] + ([(3.0, True, 4), (8.0, False, 12)] if big else []):
         W.append({"kind": "grand", "name": f"grand-lam{lam}-{'N2' if mol else 'Ar'}-framework{fw}", "lam": lam, "mol": mol, "tri": False, "mixed": True, "fw": fw, "L": L["g"]})
     return [{"name": w["name"], "w": w, "seed": seed} for w in W]
@@ -221,6 +222,15 @@ def chain_grand(w, seed, L):
     mc.add_move(sims.build_move({"t": "E", "op": op}, np.array(labels, dtype=int), {}), name="x", probability=1.0)
     if w["mixed"]:
         mc.add_move(sims.build_move({"t": "D", "op": {"t": "TranslationRotation"} if w["mol"] else {"t": "Ball", "step": 1.0}}, np.array(labels, dtype=int), {}), name="d", probability=0.5)
+    if w.get("retune"):
+        # equilibrate at another state point, then re-assign temperature and chemical potential on the live simulation
+        # (same target mean number) and measure there
+        T2 = float(w["retune"])
+        kT2 = KT(T2)
+        for _ in mc.srun(max(50, L // 10)):
+            pass
+        mc.temperature = T2
+        mc.chemical_potential = kT2 * math.log(w["lam"] * thermal_wavelength(float(species.get_masses().sum()), T2) ** 3 / V)
     out = np.empty(L)
     ins_frac, ins_dir = [], []
     icell = np.linalg.inv(cell)
